@@ -9,7 +9,7 @@
      tss/{ecdsa,frost}/signing/signing.go     NewSigning: LockKeyshare; defer UnlockKeyshare; GetKeyshare
      tss/coordinator.go                       Execute: refused as duplicate -> return; otherwise the
                                               deferred cleanup calls Stop() on every process        *)
-From Coq Require Import List Arith Bool.
+From Coq Require Import List Arith NArith Bool.
 Import ListNotations.
 
 Inductive kind :=
@@ -29,6 +29,9 @@ Inductive outcome :=
                       tss.Error), and tss.Coordinator (handleError -> retry / waitForStart) calls Run
                       A SECOND TIME ON THE SAME OBJECT; only processes with Retryable() = true, i.e. the
                       signing kinds, are run again *)
+| CancelledBeforeEntry (* the context handed to Coordinator.Execute is ALREADY cancelled (or past its
+                      deadline) when Execute is called: the request goes through admission, the cleanup
+                      defer is registered, the wait loops return at once; Run is never called *)
 | ConstructorFails. (* the constructor returns an error - the key share cannot be read (file missing,
                       corrupt, unreadable) or, FROST signing, the tweak is malformed: no process
                       exists, Coordinator.Execute is never called *)
@@ -303,3 +306,53 @@ Fixpoint threads_guarded (i : nat) (ss : list (kind * outcome)) (tr : list (nat 
 
 Definition contention_ok (ss : list (kind * outcome)) (tr : list (nat * ev)) : bool :=
   merged_ok tr && threads_guarded 0 ss tr.
+
+(* ------------------------------------------------------------------------------------------ *)
+(* The stores' OWN LockKeyshare / UnlockKeyshare (keyshare/ecdsa.go, keyshare/frost.go) must
+   implement the mutex of [cstep] - one [held] bit: Lock waits while it is set and sets it, Unlock
+   clears it - whatever else they do.  Balanced callers cannot see a lock that loses a release or
+   lets two holders in; a STRESS run on the real store objects can: [workers] goroutines, each
+   doing [pairs] times  LockKeyshare; read the shared counter; write it back incremented;
+   UnlockKeyshare  (thread t = worker t, Get = the read, Store = the write).                      *)
+Fixpoint pairs_prog (n : nat) : list ev :=
+  match n with
+  | O => []
+  | S m => L :: Get :: Store :: U :: pairs_prog m
+  end.
+
+Definition stress_prog (workers pairs : nat) (t : nat) : list ev :=
+  if Nat.ltb t workers then pairs_prog pairs else [].
+
+Definition is_Store (e : ev) := match e with Store => true | _ => false end.
+
+(* the shared counter under a merged ledger: a read copies it into the worker's register, a write
+   stores register + 1 (a NON-atomic increment: an increment is lost as soon as two workers are
+   between their read and their write) *)
+Fixpoint counter_run (c : nat) (reg : nat -> nat) (tr : list (nat * ev)) : nat :=
+  match tr with
+  | [] => c
+  | (t, Get) :: r => counter_run c (updf reg t c) r
+  | (t, Store) :: r => counter_run (S (reg t)) reg r
+  | _ :: r => counter_run c reg r
+  end.
+
+(* one worker's program is a sequence of read-modify-write sections: from lock state h, got = the
+   read of the current section has been done *)
+Fixpoint rmwb (h got : bool) (l : list ev) : bool :=
+  match l with
+  | [] => negb h
+  | L :: r => negb h && rmwb true false r
+  | Get :: r => h && negb got && rmwb true true r
+  | Store :: r => h && got && rmwb true false r
+  | U :: r => h && negb got && rmwb false false r
+  | _ :: r => rmwb h got r
+  end.
+
+(* THE JUDGE of a stress run on a real store: every worker completed all its pairs (nobody was left
+   waiting for a lock that did not come back), no increment was lost (mutual exclusion), and a Lock
+   after everything had ended succeeded within its deadline (free = 1; 2 = the process died with
+   "unlock of unlocked mutex", 3 = it did not succeed / the workers stalled).  Counts are binary
+   numbers (hundreds of thousands of pairs). *)
+Definition stress_ok (workers pairs : N) (dones : list N) (counter : N) (free : nat) : bool :=
+  N.eqb (N.of_nat (length dones)) workers && forallb (N.eqb pairs) dones
+  && N.eqb counter (workers * pairs) && Nat.eqb free 1.
